@@ -18,8 +18,45 @@ def sh(*a, **k):
     return subprocess.run(a, capture_output=True, text=True, **k)
 
 
+def scratch_main(patch):
+    """--scratch: the same evaluation on a scratch copy of /repo/src (`<quick_cmd> --repo <copy>`), leaving /repo untouched - for use
+    while something else is reading /repo"""
+    import shutil
+
+    td = Path(tempfile.mkdtemp(prefix="mdpax_seed_scratch_"))
+    out = {}
+    try:
+        shutil.copytree(Path(REPO) / "src", td / "src")
+        r = sh("git", "apply", str(patch), cwd=td)
+        if r.returncode:
+            print("patch does not apply:", r.stderr)
+            return 2
+        (td / "ev").mkdir()
+        env = dict(os.environ, MDPAX_EVIDENCE_DIR=str(td / "ev"))
+        man = json.loads((here / "MANIFEST.json").read_text())
+        for c in man["checks"]:
+            pid = c["property_id"]
+            r = subprocess.run(c["quick_cmd"] + f" --repo {td}", shell=True, cwd=here, capture_output=True, text=True, env=env)
+            lines = [l for l in r.stdout.splitlines() if not l.startswith("KNOWN-FINDING")]
+            out[pid] = {"exit": r.returncode, "reports": [l for l in lines if l.startswith("src/") or l.startswith("ANALYSIS-ERROR")][:6]}
+    finally:
+        shutil.rmtree(td, ignore_errors=True)
+    fired = {p: v for p, v in out.items() if v["exit"] == 1}
+    errs = {p: v for p, v in out.items() if v["exit"] == 2}
+    if "--json" in sys.argv:
+        print(json.dumps({"fired": fired, "errors": errs}, indent=1))
+    else:
+        print(f"checks reporting a VIOLATION: {sorted(fired) or 'none'}; ANALYSIS-ERROR: {sorted(errs) or 'none'}")
+        for p, v in {**fired, **errs}.items():
+            for l in v["reports"]:
+                print(f"  [{p}] {l[:330]}")
+    return 0
+
+
 def main():
     patch = Path(sys.argv[1]).resolve()
+    if "--scratch" in sys.argv or os.environ.get("MDPAX_SEED_SCRATCH"):
+        return scratch_main(patch)
     st = sh("git", "-C", REPO, "status", "--porcelain", "--", "src").stdout.strip()
     if st:
         print("refusing: /repo/src has uncommitted changes:\n" + st)
